@@ -191,4 +191,183 @@ def Fn.wf (f : Fn) : Bool :=
 /-- the operations a sequence uses (to state that an instantiation's dummy fields are never reached) -/
 def Fn.usesOp (f : Fn) (p : Op → Bool) : Bool := f.body.any fun i => p i.op
 
+
+/-! ## Structured form: POINT-level statements with constant-bound loops
+
+The table constructors / lookups and the scalar multiplications are loops whose bodies are calls of
+POINT methods (`points[i].Set(v.Add(&points[i-1], p))`).  `translator/opstmt.go` regenerates them as a
+`Stmt` tree: calls on PLACES (a point variable or an element `arr[i]` of an array of points with an
+`IExpr` index), int assignments, and `for v := lo; v < hi; v += step` with CONSTANT bounds.
+`runStmt` interprets a tree over abstract point operations (`PointOps C`); arrays are functions
+`Nat → C` (the Go arrays have fixed length and the translator checks every constant-bound index
+against it). -/
+
+/-- Go `int` expressions of the structured form -/
+inductive IExpr where
+  | lit (v : Int)
+  | var (id : Nat)
+  | add (a b : IExpr)
+  | sub (a b : IExpr)
+  | mul (a b : IExpr)
+  | div (a b : IExpr)          -- Go `/`: truncated division
+  | shr (a : IExpr) (k : Nat)  -- `a >> k` on a non-negative value: a / 2^k
+  | band (a : IExpr) (m : Nat) -- `a & m` on a non-negative value, m = 2^j - 1 (checked by the translator): a % (m+1)
+  | ctEq (a b : IExpr)         -- subtle.ConstantTimeByteEq(a, b)
+  | aget (arr : Nat) (i : IExpr) -- element of an (opaque) array of ints: `digits[i]`, `s[i]`
+deriving Repr
+
+/-- a point-valued location -/
+inductive Place where
+  | pt (id : Nat)
+  | elem (arr : Nat) (i : IExpr)
+deriving Repr
+
+/-- methods of the point types (and the two constructors) -/
+inductive POp where
+  | set | zero | add | double | neg | sub | select | condNeg | fromAffine
+  | newGenerator | newIdentity
+deriving DecidableEq, Repr
+
+/-- table types whose methods are kept ATOMIC in the scalar multiplications -/
+inductive TOp where
+  | lookup | naf5 | naf8
+deriving DecidableEq, Repr
+
+inductive Stmt where
+  | skip
+  | seq (a b : Stmt)
+  /-- `dst.Op(args…, iargs…)` -/
+  | call (op : POp) (dst : Place) (args : List Place) (iargs : List IExpr)
+  /-- int variable := expression -/
+  | assign (dst : Nat) (e : IExpr)
+  /-- `for v := lo; v < hi; v += step { body }`, constant bounds, step > 0 -/
+  | forLt (v : Nat) (lo hi : Int) (step : Nat) (body : Stmt)
+  /-- `for v := hi; v >= lo; v-- { body }`, constant bounds -/
+  | forDown (v : Nat) (hi lo : Int) (body : Stmt)
+  /-- `table.Init(src)` kept atomic: the `n` entries of the table at `arr[off …]` := `tblInit op src k` -/
+  | tinit (op : TOp) (arr : Nat) (off : IExpr) (n : Nat) (src : Place)
+  /-- `table.SelectInto(dst, x)` kept atomic: dst := `tblSelect op arr off x` (the table at arr[off …]) -/
+  | tselect (op : TOp) (dst : Place) (arr : Nat) (off : IExpr) (x : IExpr)
+deriving Repr
+
+/-- `.block [s₁, …, sₙ]` = s₁; …; sₙ -/
+def Stmt.block : List Stmt → Stmt
+  | [] => .skip
+  | s :: ss => .seq s (Stmt.block ss)
+
+structure PointOps (C : Type) where
+  set : C → C
+  zero : C
+  add : C → C → C
+  double : C → C
+  neg : C → C
+  sub : C → C → C
+  select : C → C → Int → C
+  condNeg : C → Int → C
+  fromAffine : C → C
+  newGenerator : C
+  newIdentity : C
+  ctEq : Int → Int → Int
+  /-- entry `k` of the table `T.Init(p)` builds -/
+  tblInit : TOp → C → Nat → C
+  /-- `T.SelectInto(·, x)` on the table that starts at offset `off` of the given array -/
+  tblSelect : TOp → (Nat → C) → Nat → Int → C
+
+structure PEnv (C : Type) where
+  pts : Nat → C
+  arrs : Nat → Nat → C
+  ints : Nat → Int
+  iarrs : Nat → Nat → Int
+
+namespace PEnv
+variable {C : Type}
+def setPt (e : PEnv C) (i : Nat) (v : C) : PEnv C :=
+  ⟨fun j => cond (Nat.beq j i) v (e.pts j), e.arrs, e.ints, e.iarrs⟩
+def setElem (e : PEnv C) (a k : Nat) (v : C) : PEnv C :=
+  ⟨e.pts, fun b => cond (Nat.beq b a) (fun j => cond (Nat.beq j k) v (e.arrs a j)) (e.arrs b), e.ints, e.iarrs⟩
+def setInt (e : PEnv C) (i : Nat) (v : Int) : PEnv C :=
+  ⟨e.pts, e.arrs, fun j => cond (Nat.beq j i) v (e.ints j), e.iarrs⟩
+/-- the table at `a[off …]` := `f 0, f 1, …` (n entries) -/
+def setTable (e : PEnv C) (a off n : Nat) (f : Nat → C) : PEnv C :=
+  ⟨e.pts, fun b => cond (Nat.beq b a)
+      (fun j => cond (Nat.ble off j && Nat.blt j (off + n)) (f (j - off)) (e.arrs a j)) (e.arrs b), e.ints, e.iarrs⟩
+end PEnv
+
+def IExpr.eval {C : Type} (O : PointOps C) (e : PEnv C) : IExpr → Int
+  | .lit v => v
+  | .var i => e.ints i
+  | .add a b => a.eval O e + b.eval O e
+  | .sub a b => a.eval O e - b.eval O e
+  | .mul a b => a.eval O e * b.eval O e
+  | .div a b => Int.tdiv (a.eval O e) (b.eval O e)
+  | .shr a k => Int.ofNat ((a.eval O e).toNat / 2 ^ k)
+  | .band a m => Int.ofNat ((a.eval O e).toNat % (m + 1))
+  | .ctEq a b => O.ctEq (a.eval O e) (b.eval O e)
+  | .aget arr i => e.iarrs arr (i.eval O e).toNat
+
+def Place.read {C : Type} (O : PointOps C) (e : PEnv C) : Place → C
+  | .pt i => e.pts i
+  | .elem a i => e.arrs a (i.eval O e).toNat
+
+def Place.write {C : Type} (O : PointOps C) (e : PEnv C) (v : C) : Place → PEnv C
+  | .pt i => e.setPt i v
+  | .elem a i => e.setElem a (i.eval O e).toNat v
+
+/-- the value a call stores into its destination; an ill-shaped call stores the old value -/
+def callValue {C : Type} (O : PointOps C) (e : PEnv C) (op : POp) (dst : Place) (args : List Place)
+    (iargs : List IExpr) : C :=
+  match op, args, iargs with
+  | .set, [a], [] => O.set (a.read O e)
+  | .zero, [], [] => O.zero
+  | .add, [a, b], [] => O.add (a.read O e) (b.read O e)
+  | .double, [a], [] => O.double (a.read O e)
+  | .neg, [a], [] => O.neg (a.read O e)
+  | .sub, [a, b], [] => O.sub (a.read O e) (b.read O e)
+  | .select, [a, b], [c] => O.select (a.read O e) (b.read O e) (c.eval O e)
+  | .condNeg, [], [c] => O.condNeg (dst.read O e) (c.eval O e)
+  | .fromAffine, [a], [] => O.fromAffine (a.read O e)
+  | .newGenerator, [], [] => O.newGenerator
+  | .newIdentity, [], [] => O.newIdentity
+  | _, _, _ => dst.read O e
+
+/-- `n` iterations of `f k` for k = 0 … n-1 -/
+def iterate {α : Type} (f : Nat → α → α) : Nat → Nat → α → α
+  | 0, _, x => x
+  | n + 1, k, x => iterate f n (k + 1) (f k x)
+
+/-- number of iterations of `for v := lo; v < hi; v += step` -/
+def tripCount (lo hi : Int) (step : Nat) : Nat :=
+  if step = 0 then 0 else ((hi - lo + (step : Int) - 1) / (step : Int)).toNat
+
+def runStmt {C : Type} (O : PointOps C) : Stmt → PEnv C → PEnv C
+  | .skip, e => e
+  | .seq a b, e => runStmt O b (runStmt O a e)
+  | .call op dst args iargs, e => dst.write O e (callValue O e op dst args iargs)
+  | .assign d x, e => e.setInt d (x.eval O e)
+  | .forLt v lo hi step body, e =>
+      iterate (fun k e' => runStmt O body (e'.setInt v (lo + (k : Int) * (step : Int)))) (tripCount lo hi step) 0 e
+  | .forDown v hi lo body, e =>
+      iterate (fun k e' => runStmt O body (e'.setInt v (hi - (k : Int)))) (hi - lo + 1).toNat 0 e
+  | .tinit op arr off n src, e => e.setTable arr (off.eval O e).toNat n (O.tblInit op (src.read O e))
+  | .tselect op dst arr off x, e =>
+      dst.write O e (O.tblSelect op (e.arrs arr) (off.eval O e).toNat (x.eval O e))
+
+/-- one regenerated function in structured form -/
+structure SFn where
+  name : String
+  /-- variable table (position = number); kinds: "pt", "arr <len>", "int" -/
+  vars : List (String × String)
+  /-- inputs: receiver, parameters, package-level tables, opaque ints — by name -/
+  inputs : List String
+  outputs : List String
+  body : Stmt
+  /-- `if cond { panic }` guards and whitelisted guard calls, in order -/
+  guards : List (String × List String)
+  facts : List (String × String)
+  /-- calls whose destination is (an element of) a parameter other than the receiver -/
+  paramWrites : List String
+  /-- reads of a parameter after a write to another parameter it may alias (same point type) -/
+  hazards : List String
+deriving Repr
+
 end PtOps
